@@ -73,6 +73,20 @@ pub fn replay_tasks(input: &str, output: &str) {
                 out.put(json!({"sig": format!("tasks:{}:irrelevant-pair-evaluated:{}", api, category(p)), "detail": format!("pair {:?}; {}", p, desc), "data": desc}));
             }
         };
+        // (0) the safety distance of every relevant pair, in either argument order, is the spec's Rmin
+        {
+            let sd = safety_from(&line["table"], 0, 0, CheckMode::AllCollsions);
+            for t in line["rmin"].as_array().unwrap() {
+                let (a, b, want) = (t[0].as_u64().unwrap() as u16, t[1].as_u64().unwrap() as u16, t[2].as_i64().unwrap());
+                let want_f = if want <= -1_000_000 { NEVER_COLLIDES } else { want as f32 / 1e6 };
+                let (g1, g2) = (*sd.min_distance(a, b), *sd.min_distance(b, a));
+                evals += 1;
+                if g1 != want_f || g2 != want_f {
+                    out.put(json!({"sig": format!("tasks:min_distance-differs:{}", category(&(a as u64, b as u64))),
+                        "detail": format!("min_distance({},{}) = {} / reversed {} expected {}; {}", a, b, g1, g2, want_f, desc), "data": desc}));
+                }
+            }
+        }
         // (a) body table; collision_details = full check
         let body = scene::build(&sc, &kin, &q0, &Isometry3::identity(), safety_from(&line["table"], 0, 0, CheckMode::AllCollsions));
         verif_hooks::start();
